@@ -250,7 +250,9 @@ struct ManOps {
         out.i64(w.dof());
         const smooth::AnyManifold w2 = w.rplus(t);
         put_mat(out, w2.rminus(w));
-        IO::put(out, w2.template get<M>());
+        // (constructing an AnyManifold from an AnyManifold copies it: what it holds is then the original payload)
+        if constexpr (std::is_same_v<M, smooth::AnyManifold>) IO::put(out, w2);
+        else IO::put(out, w2.template get<M>());
         const smooth::AnyManifold wb(b);
         put_mat(out, wb.rminus(w));
         break;
